@@ -44,7 +44,7 @@ def norm_callee(t):
     return ('fn', c)
 
 
-def key_projection(P, b):
+def key_projection(P, b, depth=0):
     """own-crate functions applied DIRECTLY to an operand (self / other) in the body: the key projection;
     returns (set of projections, {operand index: [projection names]})"""
     K = set()
@@ -57,6 +57,16 @@ def key_projection(P, b):
         a0 = T.operand(t['args'][0])
         if a0[0] == 'arg' and a0[1] in per_arg:
             nm = re.sub(r'^<(.*) as .*>::', r'\1::', name)
+            # a private helper that only projects its receiver further (e.g. `fn decoded_bytes(&self) { self.as_pct_str().bytes() }`)
+            # is looked through: the key is what the helper applies to self
+            hb = P.body(name) if depth < 3 else None
+            if hb is not None and hb.get('vis') != 'pub' and hb.get('arg_count') == 1:
+                K2, per2 = key_projection(P, hb, depth + 1)
+                if per2[1]:
+                    for n2 in per2[1]:
+                        K.add(('fn', n2))
+                        per_arg[a0[1]].append(n2)
+                    continue
             K.add(('fn', nm))
             per_arg[a0[1]].append(nm)
     return K, per_arg
